@@ -33,7 +33,7 @@ inductive Decision
   | web                                        -- relayed to the redirect address
   | admin                                      -- handshake reply, then the user-management API
   | proxy (uid : Bytes) (sid : Nat) (existing : Bool)   -- handshake reply, connection added to that session
-  | stall                                      -- authorised user whose GetSession failed: neither reply nor relay
+  | stall                                      -- GetSession refused a new session and the branch just returns: neither reply, relay nor close
 deriving DecidableEq, Repr
 
 inductive Transport | tls | ws
@@ -104,8 +104,9 @@ def dbAuthoriseSession (s : Srv) (uid : Bytes) (nowSec : Int) (nExisting : Nat) 
 def setSessions (act : List (Bytes × List Nat)) (uid : Bytes) (ss : List Nat) : List (Bytes × List Nat) :=
   (uid, ss) :: act.filter (fun a => !(a.1 == uid))
 
-/-- what follows a successful `AuthFirstPacket` in `dispatchConnection` -/
-def dispatchInfo (s : Srv) (info : ClientInfo) (now : Int) : Srv × Decision :=
+/-- what follows a successful `AuthFirstPacket` in `dispatchConnection`.  `sessErrGoesWeb`: does the branch taken when
+`user.GetSession` refuses a new session end in `goWeb()` (`dispatchInfo` instantiates it with the extracted fact) -/
+def dispatchInfoWith (sessErrGoesWeb : Bool) (s : Srv) (info : ClientInfo) (now : Int) : Srv × Decision :=
   if !(Gen.Auth.encMethods.contains (info.enc.toNat : Int)) then (s, .web)
   else if Gen.Auth.adminGate (s.adminUID.length : Int) (info.uid == s.adminUID) (info.sid : Int) then (s, .admin)
   else if !(s.proxyBook.contains info.method) then (s, .web)
@@ -121,9 +122,12 @@ def dispatchInfo (s : Srv) (info : ClientInfo) (now : Int) : Srv × Decision :=
       else if !byp && !(dbAuthoriseSession s info.uid nowSec ss.length) then
         -- GetSession failed: `user.CloseSession(sid)` deletes the user record when it has no session left
         let act := if ss.length = 0 then s.active.filter (fun a => !(a.1 == info.uid)) else setSessions s.active info.uid ss
-        ({ s with active := act }, if Gen.Auth.getSessionErrGoesWeb then .web else .stall)
+        ({ s with active := act }, if sessErrGoesWeb then .web else .stall)
       else
         ({ s with active := setSessions s.active info.uid (info.sid :: ss) }, .proxy info.uid info.sid false)
+
+def dispatchInfo (s : Srv) (info : ClientInfo) (now : Int) : Srv × Decision :=
+  dispatchInfoWith Gen.Auth.getSessionErrGoesWeb s info now
 
 /-- `AuthFirstPacket` + the rest of `dispatchConnection`, for fragments already extracted -/
 def dispatchFrag (C : Crypto) (s : Srv) (e : Extract) (now : Int) : Srv × Decision :=
